@@ -799,7 +799,10 @@ class XMLConverter(PDFConverter[AnyIO]):
                 )
                 self.write(s)
             elif isinstance(item, LTFigure):
-                s = f'<figure name="{item.name}" bbox="{bbox2str(item.bbox)}">\n'
+                s = '<figure name="%s" bbox="%s">\n' % (
+                    enc(item.name),
+                    bbox2str(item.bbox),
+                )
                 self.write(s)
                 for child in item:
                     render(child)
